@@ -56,10 +56,12 @@ VARIABLES content,   \* [Src -> [Prov -> 0..MaxVer]]   0 = source does not repor
           last,      \* kind of the last completed step
           lastArg,   \* provider and return value of the last completed miss
           calls, envs, h,
-          autos      \* how often the refresh interval has elapsed
+          autos,     \* how often the refresh interval has elapsed
+          resets     \* ghost: clock value at which p's armed removal timer was last cleared because a source reported p again (0: never);
+                     \* part of the VIEW so that histories with a disappearance and a return are explored and exported as such
 
-vars == <<content, up, now, ticks, seq, write, rM, rU, w, waiter, seen, rep, goneAt, prevVis, hi, last, lastArg, calls, envs, h, autos>>
-view == <<content, up, now, ticks, seq, write, rM, rU, w, waiter, seen, rep, goneAt, prevVis, hi, last, lastArg, calls, envs, autos>>
+vars == <<content, up, now, ticks, seq, write, rM, rU, w, waiter, seen, rep, goneAt, prevVis, hi, last, lastArg, calls, envs, h, autos, resets>>
+view == <<content, up, now, ticks, seq, write, rM, rU, w, waiter, seen, rep, goneAt, prevVis, hi, last, lastArg, calls, envs, autos, resets>>
 
 NoEnt == [ver |-> NONE, sq |-> 0, us |-> 0, ex |-> 0]
 AnyProv == ProvSeq[1]
@@ -105,7 +107,7 @@ Init ==
   /\ rM = [p \in Prov |-> NONE] /\ rU = [p \in Prov |-> NONE]
   /\ w = Idle /\ waiter = NoWaiter
   /\ seen = Zero /\ rep = {} /\ goneAt = Zero /\ prevVis = [p \in Prov |-> NONE] /\ hi = Zero
-  /\ last = "init" /\ lastArg = [p |-> AnyProv, ret |-> 0] /\ calls = 0 /\ envs = 0 /\ h = InitSteps(content) /\ autos = 0
+  /\ last = "init" /\ lastArg = [p |-> AnyProv, ret |-> 0] /\ calls = 0 /\ envs = 0 /\ h = InitSteps(content) /\ autos = 0 /\ resets = Zero
 
 BudgetA == calls < MaxCalls /\ calls' = calls + 1 /\ UNCHANGED envs         \* an API call starts
 Budget == BudgetA /\ UNCHANGED autos
@@ -118,15 +120,15 @@ EnvBudget == Useful /\ envs < MaxEnv /\ envs' = envs + 1 /\ UNCHANGED <<calls, a
 EnvSet(s, p, v) ==
   /\ EnvBudget /\ content[s][p] # v /\ content' = [content EXCEPT ![s][p] = v]
   /\ Rec("EnvSet", s, p, v, 0, VisSeq) /\ last' = "env"
-  /\ UNCHANGED <<up, now, ticks, seq, write, rM, rU, w, waiter, seen, rep, goneAt, prevVis, lastArg, hi>>
+  /\ UNCHANGED <<up, now, ticks, seq, write, rM, rU, w, waiter, seen, rep, goneAt, resets, prevVis, lastArg, hi>>
 EnvFlip(s) ==
   /\ EnvBudget /\ up' = [up EXCEPT ![s] = ~@]
   /\ Rec(IF up[s] THEN "EnvDown" ELSE "EnvUp", s, AnyProv, 0, 0, VisSeq) /\ last' = "env"
-  /\ UNCHANGED <<content, now, ticks, seq, write, rM, rU, w, waiter, seen, rep, goneAt, prevVis, lastArg, hi>>
+  /\ UNCHANGED <<content, now, ticks, seq, write, rM, rU, w, waiter, seen, rep, goneAt, resets, prevVis, lastArg, hi>>
 Tick ==
   /\ Useful /\ Free /\ ticks < MaxTicks /\ ticks' = ticks + 1 /\ now' = now + TickLen
   /\ Rec("Tick", SrcSeq[1], AnyProv, 0, 0, VisSeq) /\ last' = "tick"
-  /\ UNCHANGED <<content, up, seq, write, rM, rU, w, waiter, seen, rep, goneAt, prevVis, lastArg, hi>>
+  /\ UNCHANGED <<content, up, seq, write, rM, rU, w, waiter, seen, rep, goneAt, resets, prevVis, lastArg, hi>>
 
 ---------------------------------------------------------------------------
 (* Refresh *)
@@ -145,7 +147,7 @@ RefreshBegin ==
   /\ IF FIXED THEN /\ w' = [Idle EXCEPT !.pc = "refresh", !.i = 1] /\ UNCHANGED seq
               ELSE /\ w' = [Idle EXCEPT !.pc = "refresh", !.i = 1, !.sq = seq + 1] /\ seq' = seq + 1
   /\ Rec("RefreshBegin", SrcSeq[1], AnyProv, 0, 0, VisSeq) /\ last' = "refreshBegin"
-  /\ UNCHANGED <<content, up, now, ticks, write, rM, rU, waiter, seen, rep, goneAt, prevVis, lastArg, hi>>
+  /\ UNCHANGED <<content, up, now, ticks, write, rM, rU, waiter, seen, rep, goneAt, resets, prevVis, lastArg, hi>>
 
 (* FetchAll of source w.i returns (or fails, and the refresh moves on). *)
 RefreshFetch ==
@@ -163,14 +165,14 @@ RefreshFetch ==
                      /\ seen' = [p \in Prov |-> Max(seen[p], content[s][p])]
      /\ Rec("RefreshFetch", s, AnyProv, w.i, IF up[s] THEN 1 ELSE 0, VisSeq)
   /\ last' = "refreshFetch"
-  /\ UNCHANGED <<content, up, now, ticks, seq, rM, rU, waiter, rep, goneAt, prevVis, lastArg>>
+  /\ UNCHANGED <<content, up, now, ticks, seq, rM, rU, waiter, rep, goneAt, resets, prevVis, lastArg>>
 
 (* The caller's context is cancelled while source w.i is being fetched: Refresh returns the error. *)
 RefreshCancel ==
   /\ Free /\ w.pc = "refresh" /\ w.i <= N /\ ~w.auto        \* the automatic refresh runs under the background context
   /\ w' = Idle
   /\ Rec("RefreshCancel", SrcSeq[w.i], AnyProv, w.i, 0, VisSeq) /\ last' = "refreshCancelled"
-  /\ UNCHANGED <<content, up, now, ticks, seq, write, rM, rU, waiter, seen, rep, goneAt, prevVis, lastArg, hi>>
+  /\ UNCHANGED <<content, up, now, ticks, seq, write, rM, rU, waiter, seen, rep, goneAt, resets, prevVis, lastArg, hi>>
 
 (* Everything after the source loop, up to and including pc.read.Store: one critical section
    whose intermediate states nobody can observe.                                             *)
@@ -202,6 +204,7 @@ RefreshPublish ==
                                      ELSE IF Visible(p) > 0 /\ goneAt[p] = 0 THEN now
                                      ELSE IF Visible(p) <= 0 THEN 0 ELSE goneAt[p]]
         /\ prevVis' = [p \in Prov |-> Visible(p)]
+        /\ resets' = [p \in Prov |-> IF write[p].ver > 0 /\ write[p].ex # 0 /\ w1[p].ex = 0 THEN now ELSE resets[p]]
         /\ hi' = [p \in Prov |-> IF p \in gone THEN 0 ELSE hi[p]]
         /\ RecX("RefreshPublish", SrcSeq[1], AnyProv, IF merge THEN 1 ELSE 0, 0, VisSeqOf(m2, u2), HiSeqOf(hi), 0)
   /\ w' = Idle /\ last' = "refreshOK"
@@ -223,7 +226,7 @@ GetHit(p, t) ==
   /\ RecAu("GetHit", SrcSeq[1], p, 0, Visible(p), VisSeq, <<>>, IF write[p].ver # NONE THEN 1 ELSE 0,
            IF t = 0 THEN 0 ELSE IF w.pc = "idle" THEN 1 ELSE 2)
   /\ last' = "getHit"
-  /\ UNCHANGED <<content, up, now, ticks, write, rM, rU, seen, rep, goneAt, prevVis, lastArg, hi>>
+  /\ UNCHANGED <<content, up, now, ticks, write, rM, rU, seen, rep, goneAt, resets, prevVis, lastArg, hi>>
 
 (* fetchMissing after the lock is taken.  If the provider is in the write map the snapshot is
    consulted again ("stored by previous request"); an entry that is in the write map but in
@@ -239,7 +242,7 @@ EnterMiss(p, how) ==
 MissBegin(p) ==
   /\ Budget /\ Visible(p) = NONE /\ w.pc = "idle" /\ waiter.kind = "none"
   /\ EnterMiss(p, "MissBegin")
-  /\ UNCHANGED <<content, up, now, ticks, seq, rM, rU, waiter, seen, rep, goneAt, prevVis, lastArg, hi>>
+  /\ UNCHANGED <<content, up, now, ticks, seq, rM, rU, waiter, seen, rep, goneAt, resets, prevVis, lastArg, hi>>
 
 MissFetch ==
   /\ Free /\ w.pc = "miss" /\ w.i <= N
@@ -248,13 +251,13 @@ MissFetch ==
      IN /\ w' = [w EXCEPT !.i = @ + 1, !.best = Max(@, got)]
         /\ Rec("MissFetch", s, w.p, w.i, got, VisSeq)
   /\ last' = "missFetch"
-  /\ UNCHANGED <<content, up, now, ticks, seq, write, rM, rU, waiter, seen, rep, goneAt, prevVis, lastArg, hi>>
+  /\ UNCHANGED <<content, up, now, ticks, seq, write, rM, rU, waiter, seen, rep, goneAt, resets, prevVis, lastArg, hi>>
 
 MissCancel ==
   /\ Free /\ w.pc = "miss" /\ w.i <= N
   /\ w' = Idle
   /\ Rec("MissCancel", SrcSeq[w.i], w.p, w.i, 0, VisSeq) /\ last' = "missCancelled"
-  /\ UNCHANGED <<content, up, now, ticks, seq, write, rM, rU, waiter, seen, rep, goneAt, prevVis, lastArg, hi>>
+  /\ UNCHANGED <<content, up, now, ticks, seq, write, rM, rU, waiter, seen, rep, goneAt, resets, prevVis, lastArg, hi>>
 
 MissPublish ==
   /\ Free /\ w.pc = "miss" /\ w.i = N + 1
@@ -276,7 +279,7 @@ MissPublish ==
         /\ lastArg' = [p |-> p, ret |-> w.best]
         /\ hi' = [hi EXCEPT ![p] = Max(@, w.best)]
   /\ w' = Idle /\ last' = "missOK"
-  /\ UNCHANGED <<content, up, now, ticks, seq, waiter, rep, goneAt>>
+  /\ UNCHANGED <<content, up, now, ticks, seq, waiter, rep, goneAt, resets>>
 
 ---------------------------------------------------------------------------
 (* A call that finds the writer lock taken.  At most one is parked (Go does not specify which
@@ -285,13 +288,13 @@ PiggyStart ==       \* Refresh while the lock is held: waits, then returns witho
   /\ WithWaiter /\ Budget /\ w.pc # "idle" /\ waiter.kind = "none"
   /\ waiter' = [kind |-> "piggy", p |-> AnyProv]
   /\ Rec("PiggyStart", SrcSeq[1], AnyProv, 0, 0, VisSeq) /\ last' = "park"
-  /\ UNCHANGED <<content, up, now, ticks, seq, write, rM, rU, w, seen, rep, goneAt, prevVis, lastArg, hi>>
+  /\ UNCHANGED <<content, up, now, ticks, seq, write, rM, rU, w, seen, rep, goneAt, resets, prevVis, lastArg, hi>>
 
 MissPark(p) ==      \* Get of a provider that is not in the snapshot while the lock is held
   /\ WithWaiter /\ Budget /\ w.pc # "idle" /\ waiter.kind = "none" /\ Visible(p) = NONE
   /\ waiter' = [kind |-> "miss", p |-> p]
   /\ Rec("MissPark", SrcSeq[1], p, 0, 0, VisSeq) /\ last' = "park"
-  /\ UNCHANGED <<content, up, now, ticks, seq, write, rM, rU, w, seen, rep, goneAt, prevVis, lastArg, hi>>
+  /\ UNCHANGED <<content, up, now, ticks, seq, write, rM, rU, w, seen, rep, goneAt, resets, prevVis, lastArg, hi>>
 
 WaiterProceed ==
   /\ Free /\ w.pc = "idle" /\ waiter.kind # "none"
@@ -300,7 +303,7 @@ WaiterProceed ==
      THEN /\ Rec("PiggyReturn", SrcSeq[1], AnyProv, 0, 0, VisSeq) /\ last' = "piggyReturn"
           /\ UNCHANGED <<w, write>>
      ELSE EnterMiss(waiter.p, "MissUnpark")
-  /\ UNCHANGED <<content, up, now, ticks, seq, rM, rU, seen, rep, goneAt, prevVis, lastArg, hi>>
+  /\ UNCHANGED <<content, up, now, ticks, seq, rM, rU, seen, rep, goneAt, resets, prevVis, lastArg, hi>>
 
 ---------------------------------------------------------------------------
 Next ==
